@@ -3,9 +3,9 @@
 export GOFLAGS=-mod=mod GOPROXY=off GOSUMDB=off GOTOOLCHAIN=local
 set -e
 sc=$1; n=${2:-1000}; seed=${3:-1}; shift; shift || true; shift || true
-mkdir -p /verif/.work
-(cd /verif/sim && go1.26.8 test -c -tags verif -o /verif/.work/sim.test ./simtest)
-cd /verif/.work
+W=/verif/.work/${DEVTAG:-dev}; mkdir -p $W
+(cd /verif/sim && go1.26.8 test -c -tags verif -o $W/sim.test ./simtest)
+cd $W
 set +e
 /usr/bin/time -f "%es wall" env GOMAXPROCS=1 ./sim.test -test.run '^TestSim$' -sim.scenario=$sc -sim.seed=$seed -sim.count=$n "$@" > out.txt 2> err.txt
 echo "exit=$? runs=$(grep -c ^RES out.txt)"; tail -1 err.txt
